@@ -71,14 +71,19 @@ func (e *Env) deferStmt(s *ast.DeferStmt) {
 	}
 	e.assign(site.armed, SBool, True)
 	e.defers = append(e.defers, site)
+	e.mayArmed[site] = true
 	// the armed flag must be false on paths that do not execute the defer
 	e.deferInit = append(e.deferInit, site.armed)
 }
 
-// runDefers emits the deferred calls in reverse order, each guarded by its armed flag.
+// runDefers emits the deferred calls that may be armed on the current path, in
+// reverse order, each guarded by its armed flag.
 func (e *Env) runDefers() {
 	for i := len(e.defers) - 1; i >= 0; i-- {
 		d := e.defers[i]
+		if !e.mayArmed[d] {
+			continue
+		}
 		head := e.cur
 		run := e.newBlock("defer-run")
 		skip := e.newBlock("defer-skip")
@@ -95,15 +100,46 @@ func (e *Env) runDefers() {
 			r := d.recv
 			rv = &r
 		}
-		savedExit := e.exitB
 		// a panic inside a deferred call continues with the remaining defers
-		e.exitB = join
+		savedUnw := e.unwindTo
+		e.unwindTo = join
+		savedArmed := e.mayArmed
 		e.invoke(d.fn, rv, d.args, d.call.Pos(), nil)
-		e.exitB = savedExit
+		e.mayArmed = savedArmed
+		e.unwindTo = savedUnw
 		e.pkg = savedPkg
 		e.jump(join)
 		e.cur = join
 	}
+}
+
+// leave ends the current path of the function: the deferred calls that may be
+// armed here run, then control reaches the post block where the contract is checked.
+func (e *Env) leave() {
+	e.runDefers()
+	if e.postB != nil {
+		// the end of an inlined function literal: control continues in the enclosing function
+		e.jump(e.postB)
+		return
+	}
+	e.retOrd++
+	saved := e.pathTag
+	e.pathTag = fmt.Sprintf("@%d", e.retOrd)
+	e.pseudoAnchor("$exit", false)
+	e.postFn()
+	e.pathTag = saved
+}
+
+// unwindFrom builds the exceptional continuation of block b (a call that panicked).
+func (e *Env) unwindFrom(b *Block) {
+	if e.unwindTo != nil {
+		b.Succ = append(b.Succ, e.unwindTo)
+		return
+	}
+	saved := e.cur
+	e.cur = b
+	e.leave()
+	e.cur = saved
 }
 
 // FuncResult is the outcome of lowering one function.
@@ -135,7 +171,7 @@ func (w *World) lowerFunc(pkg *Pkg, key string, fd *ast.FuncDecl, fc *FuncContra
 	entry := proc.NewBlock("entry")
 	e.snapB.Succ = append(e.snapB.Succ, entry)
 	e.cur = entry
-	e.exitB = proc.NewBlock("exit")
+	e.mayArmed = map[*deferSite]bool{}
 
 	// global counters
 	e.assume(And(Gt(e.nextRef(), IntLit(0)), Gt(e.nextObj(), IntLit(0)), Le(e.nextRef(), Lit(sizeBound, SInt))))
@@ -248,71 +284,70 @@ func (w *World) lowerFunc(pkg *Pkg, key string, fd *ast.FuncDecl, fc *FuncContra
 	// vacuity cover: the entry must be reachable
 	e.emit(Cmd{Kind: CAssert, T: False, Ob: &Obligation{Name: e.short + "#cover.entry", Func: e.short, Kind: "cover", Cover: true, Descr: "preconditions are satisfiable"}})
 
+	// what is checked at the end of every path (normal or unwinding), after its deferred calls
+	mayPanic := fc != nil && fc.MayPanic
+	e.postFn = func() {
+		pv := e.panicVar()
+		if fc != nil {
+			for _, cl := range fc.Clauses {
+				if cl.Kind == "cover" {
+					c := e.exitCtx()
+					e.emit(Cmd{Kind: CAssert, T: Not(c.boolTerm(cl.Expr)), Ob: &Obligation{Name: fmt.Sprintf("%s#cover.%d%s", e.short, cl.Ord, e.pathTag), Func: e.short, Kind: "cover", Cover: true, Descr: "reachable: " + cl.Text}})
+				}
+			}
+		}
+		if !mayPanic && !modPanic {
+			e.assert(Not(pv), "contained", "", []string{"C11"}, "no panic of a user method escapes "+e.short, w.pos(fd.Pos()))
+			e.assume(Not(pv))
+		}
+		e.emit(Cmd{Kind: CAssert, T: False, Ob: &Obligation{Name: e.short + "#cover.exit" + e.pathTag, Func: e.short, Kind: "cover", Cover: true, Descr: "the end of the function is reachable"}})
+		if fc != nil {
+			c := e.exitCtx()
+			for _, cl := range fc.Clauses {
+				switch cl.Kind {
+				case "ensures":
+					t := c.boolTerm(cl.Expr)
+					if mayPanic {
+						t = Implies(Not(pv), t)
+					}
+					e.assert(t, "ensures", fmt.Sprintf("%d", cl.Ord), cl.Tags, cl.Text, fmt.Sprintf("%s:%d", fc.File, cl.Line))
+				case "ensures-always":
+					e.assert(c.boolTerm(cl.Expr), "ensures-always", fmt.Sprintf("%d", cl.Ord), cl.Tags, cl.Text, fmt.Sprintf("%s:%d", fc.File, cl.Line))
+				}
+			}
+		}
+		// implicit invariants at exit (current state of the objects the parameters pointed to at entry)
+		var exitActuals []Value
+		for _, a := range actuals {
+			exitActuals = append(exitActuals, e.toEntry(a))
+		}
+		e.autoInv(key, sig, exitActuals, e.entryOld, func(cl *Clause, t *Term, what string) {
+			e.assert(t, "inv."+what, fmt.Sprintf("%d", cl.Ord), cl.Tags, "type invariant at exit: "+cl.Text, fmt.Sprintf("%s:%d", e.short, cl.Line))
+		})
+		// memory frame
+		if fc != nil && e.assigned["Mem"] && !fc.Assumed && contractTagged(fc, "C13") {
+			e.memFrame(fc, key, sig, exitActuals)
+		}
+		// global writes
+		if fc != nil {
+			for _, g := range e.globalWrites {
+				ok := false
+				for _, m := range fc.Modifies {
+					if m == "G$"+g {
+						ok = true
+					}
+				}
+				if !ok {
+					e.emit(Cmd{Kind: CAssert, T: False, Ob: &Obligation{Name: e.short + "#frame.global." + shortKey(g) + e.pathTag, Func: e.short, Kind: "frame", Tags: []string{"C12"}, Descr: "package variable " + g + " is written but not in the modifies clause"}})
+				}
+			}
+		}
+	}
+
 	// body
 	e.pseudoAnchor("$entry", true)
 	e.block(fd.Body.List)
-	e.jump(e.exitB)
-
-	// exit chain
-	e.cur = e.exitB
-	e.runDefers()
-	e.pseudoAnchor("$exit", false)
-	mayPanic := fc != nil && fc.MayPanic
-	pv := e.panicVar()
-	if fc != nil {
-		for _, cl := range fc.Clauses {
-			if cl.Kind == "cover" {
-				c := e.exitCtx()
-				e.emit(Cmd{Kind: CAssert, T: Not(c.boolTerm(cl.Expr)), Ob: &Obligation{Name: fmt.Sprintf("%s#cover.%d", e.short, cl.Ord), Func: e.short, Kind: "cover", Cover: true, Descr: "reachable: " + cl.Text}})
-			}
-		}
-	}
-	if e.hasMayPanicCall && !mayPanic && !modPanic {
-		e.assert(Not(pv), "contained", "", []string{"C11"}, "no panic of a user method escapes "+e.short, w.pos(fd.Pos()))
-		e.assume(Not(pv))
-	}
-	e.emit(Cmd{Kind: CAssert, T: False, Ob: &Obligation{Name: e.short + "#cover.exit", Func: e.short, Kind: "cover", Cover: true, Descr: "the end of the function is reachable"}})
-	if fc != nil {
-		c := e.exitCtx()
-		for _, cl := range fc.Clauses {
-			switch cl.Kind {
-			case "ensures":
-				t := c.boolTerm(cl.Expr)
-				if mayPanic || modPanic && false {
-					t = Implies(Not(pv), t)
-				}
-				e.assert(t, "ensures", fmt.Sprintf("%d", cl.Ord), cl.Tags, cl.Text, fmt.Sprintf("%s:%d", fc.File, cl.Line))
-			case "ensures-always":
-				e.assert(c.boolTerm(cl.Expr), "ensures-always", fmt.Sprintf("%d", cl.Ord), cl.Tags, cl.Text, fmt.Sprintf("%s:%d", fc.File, cl.Line))
-			}
-		}
-	}
-	// implicit invariants at exit (current state of the objects the parameters pointed to at entry)
-	var exitActuals []Value
-	for _, a := range actuals {
-		exitActuals = append(exitActuals, e.toEntry(a))
-	}
-	e.autoInv(key, sig, exitActuals, e.entryOld, func(cl *Clause, t *Term, what string) {
-		e.assert(t, "inv."+what, fmt.Sprintf("%d", cl.Ord), cl.Tags, "type invariant at exit: "+cl.Text, fmt.Sprintf("%s:%d", e.short, cl.Line))
-	})
-	// memory frame
-	if fc != nil && e.assigned["Mem"] && !fc.Assumed && contractTagged(fc, "C13") {
-		e.memFrame(fc, key, sig, exitActuals)
-	}
-	// global writes
-	if fc != nil {
-		for _, g := range e.globalWrites {
-			ok := false
-			for _, m := range fc.Modifies {
-				if m == "G$"+g {
-					ok = true
-				}
-			}
-			if !ok {
-				e.emit(Cmd{Kind: CAssert, T: False, Ob: &Obligation{Name: e.short + "#frame.global." + shortKey(g), Func: e.short, Kind: "frame", Tags: []string{"C12"}, Descr: "package variable " + g + " is written but not in the modifies clause"}})
-			}
-		}
-	}
+	e.leave()
 
 	// unused anchored clauses are failed obligations
 	if fc != nil {
